@@ -3,4 +3,4 @@
 cd /verif || exit 2
 one() { p="$1"; k="$2"; tools/seedrun.sh "$p-m$k" work/cand/$p/m$k.diff $p > work/seed_results/$p-m$k.txt 2>&1; head -1 work/seed_results/$p-m$k.txt | grep -o "== .*"; grep -m1 "== " work/seed_results/$p-m$k.txt; }
 export -f one
-for p in C01 C02 C03 C04 C05 C06 C07 C08 C09 C10 C11 C12 C13 C14 C15 C16 C17 C18 C19 C20; do for k in 1 2; do echo "$p $k"; done; done | xargs -P 4 -n 2 bash -c 'one "$0" "$1"'
+for p in C01 C02 C03 C04 C05 C06 C07 C08 C09 C10 C11 C12 C13 C14 C15 C16 C17 C18 C19 C20; do for k in 1 2 3 4; do [ -f work/cand/$p/m$k.diff ] && echo "$p $k"; done; done | xargs -P 4 -n 2 bash -c 'one "$0" "$1"'
